@@ -76,11 +76,11 @@ theorem narrow_sqrt_widen (a : Nat) : narrow (sqrt D .RNE (widen a)) = sqrt F .R
         rw [sqrt_finite_D _ nD zD sD iD, sqrt_finite_F a hn hz hs hi, hw, magOf_mkBits _ g hgf, hgv]
         exact narrow_round_sqrt (magOf F a) hfin hpos
 
-/-- the fold of a FLOAT square root (`nan if value < 0 else math.sqrt(value)`) is the binary32 square root -/
-theorem fpSqrt_F (rm : RM) (a : Nat) : fpSqrt F rm a = sqrt F .RNE a := by
+/-- the fold of a FLOAT square root (`nan if value < 0 else math.sqrt(value)`) is the binary64 square root of the widened
+operand packed as binary32 -/
+theorem fpSqrt_F_narrow (rm : RM) (a : Nat) : fpSqrt F rm a = narrow (sqrt D .RNE (widen a)) := by
   have hl : lift F a = widen a := by unfold lift; rw [if_pos rfl]
   have hlow : ∀ d, lower F d = narrow d := fun d => by unfold lower; rw [if_pos rfl]
-  rw [← narrow_sqrt_widen a]
   unfold fpSqrt pySqrt
   simp only [hl, hlow]
   cases hf : flt D (widen a) (mkBits D false 0)
@@ -92,5 +92,9 @@ theorem fpSqrt_F (rm : RM) (a : Nat) : fpSqrt F rm a = sqrt F .RNE a := by
     have : sqrt D .RNE (widen a) = D.nanBits := by
       unfold sqrt; simp only [hnn, hz, hs, Bool.false_eq_true, if_false, if_true]
     rw [this]
+
+/-- … which is the binary32 square root -/
+theorem fpSqrt_F (rm : RM) (a : Nat) : fpSqrt F rm a = sqrt F .RNE a := by
+  rw [fpSqrt_F_narrow, narrow_sqrt_widen]
 
 end Claripy.FP.Fold
